@@ -33,9 +33,9 @@ CHECK = {
     "quick_deadline": 110,
     "thorough_deadline": 1200,
     "parts": [
-        {"name": "amr", "bin": "c16_amr", "quick_share": 0.36, "thorough_share": 0.40},
-        {"name": "cartesian", "bin": "c16_cartesian", "quick_share": 0.28, "thorough_share": 0.30},
-        {"name": "amrdens", "bin": "c16_amrdens", "quick_share": 0.24, "thorough_share": 0.22},
+        {"name": "amr", "bin": "c16_amr", "quick_share": 0.36, "thorough_share": 0.38},
+        {"name": "cartesian", "bin": "c16_cartesian", "quick_share": 0.28, "thorough_share": 0.38},
+        {"name": "amrdens", "bin": "c16_amrdens", "quick_share": 0.24, "thorough_share": 0.16},
         {"name": "voronoi", "bin": "c16_voronoi", "quick_share": 0.07, "thorough_share": 0.06},
         {"name": "search", "bin": "c16_search", "quick_share": 0.05, "thorough_share": 0.02},
     ],
